@@ -41,7 +41,7 @@ let () =
   let flush_case () =
     if !cur <> [] then begin
       Buffer.add_string buf ("# " ^ !cur_id ^ "\n");
-      let obs = run_case (List.rev !cur) in
+      let obs = run_any (List.rev !cur) in
       List.iter (print_rec buf) obs;
       print_string (Buffer.contents buf);
       Buffer.clear buf;
